@@ -365,10 +365,53 @@ def run(ctx):
         ctx.check(ok and len(rets_) == 1 and guarded, "R01.5", f, "whole-name-accessor:" + acc,
                   "%s() returns %s%s: it must be the entire name behind the %d-character prefix, otherwise names that merely share a part with a declared name match" % (acc, txt, "" if guarded else " without testing %s()" % guard, k), f,
                   why_ok="%s -> name[%d:]" % (acc, k))
+    # ---- R01.9: what a token set is still there when parse() returns - check() consults environment/default only when the
+    # command line gave nothing (C03's R03.1 re-evaluated for all three kinds)
+    ctx.rule("R01.9", "a consumed token's effect is not overwritten after the loop: check() leaves command-line values alone (R03.1 re-evaluated)")
+    if ctx.prop == "C01" and not getattr(ctx, "_sharing", False):
+        from .common import share
+        share(ctx, "C03", ("R03.1",), "R01.9", "source-order obligations shared with C03", 3)
+    # ---- R01.10: the letter list really is the multiset of all letters of the token
+    ctx.rule("R01.10", "as_short_list() returns every letter behind the dash with its multiplicity (size() and count() mean what R01.7/R01.8/R11.1 take them to mean)")
+    asl = [f for f in prog.methods_of(NS + "user_input") if f.name == "as_short_list" and f.has_cfg]
+    ctx.need("R01.10", "user_input::as_short_list", len(asl), 1)
+    for f in asl:
+        rt = (f.ret or "").replace(" ", "")
+        multi = re.search(r"\bmultiset<|\bvector<|\bunordered_multiset<|\bbasic_string<|\bstd::string$", rt) is not None
+        ctx.check(multi, "R01.10", f, "letters-with-multiplicity", "as_short_list() returns %s: in that container size() counts distinct letters and count() is 0/1, so a repeated letter is not seen as a bundle "
+                  "(`-oo file` is taken as `-o file`) and the letter accounting compares the wrong numbers" % f.ret, f, why_ok=f.ret)
+        loops = cfg.loop_blocks(f)
+        ok_loop = False
+        why = "no loop"
+        if len(loops) == 1:
+            h, body = loops[0]
+            c = fmt(f.term(h).get("cond"))
+            inits = [fmt(e["expr"]) for _, _, e in f.roots() if e["expr"].get("k") == "decl" and any(v.get("init") is not None and literal_value(v["init"]) == ("int", 1) for v in e["expr"]["vars"])]
+            ins = [(b, e) for b in body for e in f.elems(b) if e.get("expr") is not None and any(n.get("k") == "call" and short(n.get("name") or "") in ("emplace", "insert", "emplace_back", "push_back", "emplace_hint") for n in walk(e["expr"]))]
+            dom = cfg.dominators(f)
+            latch = [x for x in body if any(to == h for to, _ in f.succs(x))]
+            uncond = len(ins) == 1 and all(ins[0][0] in dom.get(l, ()) for l in latch)
+            index_form = bool(inits) and re.search(r"< (this->)?name_\.size\(\)\)$", c) is not None
+            # iterator form: [X.begin() + 1, X.begin() + name_.size()) over the token text
+            itinit = {}
+            for _, _, e in f.roots():
+                if e["expr"].get("k") == "decl":
+                    for v in e["expr"]["vars"]:
+                        if v["name"].startswith("__begin") or v["name"].startswith("__end"):
+                            itinit[v["name"][:7].rstrip("0123456789")] = fmt(ir.unwrap(ir.strip_deep(v.get("init")))) if v.get("init") is not None else ""
+            iter_form = re.fullmatch(r"\((arg_|name_)\.c?begin\(\) \+ 1\)", itinit.get("__begin", "")) is not None and \
+                re.fullmatch(r"\((arg_|name_)\.c?begin\(\) \+ name_\.size\(\)\)", itinit.get("__end", "")) is not None
+            why = "init %s / %s, condition %s, %d insertion(s)%s" % (inits, itinit, c, len(ins), "" if uncond else " (conditional)")
+            if not (index_form or iter_form):
+                ctx.broken("R01.10", f, "one-entry-per-letter", "the letter loop of as_short_list() is in neither recognised form (index 1 .. name_.size(), or iterators begin()+1 .. begin()+name_.size()): %s" % why, f)
+                continue
+            ok_loop = uncond
+        ctx.check(ok_loop, "R01.10", f, "one-entry-per-letter", "as_short_list() does not insert exactly one entry for every index 1 .. name_.size()-1 (%s)" % why, f, why_ok=why)
     # ---- R01.6: the value that accompanies an option reaches the result uncut (shared with C02's R02.1)
     ctx.rule("R01.6", "an option's value token is stored whole (no part of the argument is silently dropped) - R02.1 re-evaluated")
     from . import C02
     sub = type(ctx)(ctx.prop, ctx.prog, ctx.tier)
+    sub._sharing = True
     C02.run(sub)
     n6 = 0
     for o in sub.obs:
